@@ -45,16 +45,48 @@ func checkC15(c *Ctx) {
 	recvT := bind.Params[0].Type().(*types.Pointer).Elem().Underlying().(*types.Struct)
 	var fMap, fPrev, fHash string
 	var chalT *types.Struct
+	// fChal: the field that holds the challenge records — the map itself, or, when the map only
+	// gives the position of a name, the slice of records it indexes
+	fChal := ""
 	for i := 0; i < recvT.NumFields(); i++ {
 		f := recvT.Field(i)
 		switch t := f.Type().Underlying().(type) {
 		case *types.Map:
 			fMap = f.Name()
-			chalT, _ = t.Elem().Underlying().(*types.Struct)
+			if st, ok := t.Elem().Underlying().(*types.Struct); ok {
+				chalT, fChal = st, f.Name()
+			}
 		case *types.Pointer:
 			fPrev = f.Name()
 		case *types.Interface:
 			fHash = f.Name()
+		}
+	}
+	prevByIndex := false
+	if chalT == nil && fMap != "" {
+		for i := 0; i < recvT.NumFields(); i++ {
+			f := recvT.Field(i)
+			if sl, ok := f.Type().Underlying().(*types.Slice); ok {
+				if st, ok := sl.Elem().Underlying().(*types.Struct); ok {
+					chalT, fChal = st, f.Name()
+				}
+			}
+		}
+		// the previous challenge designated by its position in that slice
+		if chalT != nil && fPrev == "" {
+			n := 0
+			for i := 0; i < recvT.NumFields(); i++ {
+				f := recvT.Field(i)
+				if b, ok := f.Type().Underlying().(*types.Basic); ok && b.Info()&types.IsInteger != 0 {
+					fPrev = f.Name()
+					n++
+				}
+			}
+			if n == 1 {
+				prevByIndex = true
+			} else {
+				fPrev = ""
+			}
 		}
 	}
 	// the previous challenge kept by value (a copy of the map entry, its computed flag telling
@@ -66,7 +98,7 @@ func checkC15(c *Ctx) {
 			fHasPrev = recvT.Field(i).Name()
 		}
 	}
-	if fPrev == "" && chalT != nil {
+	if fPrev == "" && chalT != nil && !prevByIndex {
 		for i := 0; i < recvT.NumFields(); i++ {
 			f := recvT.Field(i)
 			if st, ok := f.Type().Underlying().(*types.Struct); ok && types.Identical(st, chalT) {
@@ -100,13 +132,13 @@ func checkC15(c *Ctx) {
 		return
 	}
 	mp := "." + fMap
-	ch := mp + "[*]"
+	ch := "." + fChal + "[*]"
 
 	// ---- GUARD (statements; checks packaged in predicates of the package are looked through)
 	c.Rule("C15.guard", "GUARD: Bind returns nil only after Known(id) (ok edge of the lookup of the id in the challenge map) and NotComputed(id); ComputeChallenge returns nil error only after Known(id) and, for a non-first not-yet-computed challenge, previous != nil and previous.position == position-1", 2)
 	q := regexp.QuoteMeta
 	// the challenge being processed: the local copy of the map entry, or the entry itself
-	cur := `(?:local:\w+|pr\.` + q(fMap) + `\[\*\])`
+	cur := `(?:local:\w+|pr\.` + q(fChal) + `\[\*\])`
 	known := Req{"Known(id)", `^has\(pr\.` + q(fMap) + `,p0\)$`}
 	RequireFacts(c, p, "C15.guard", bind, AcceptNilErr, nil, []Req{
 		known,
@@ -115,11 +147,52 @@ func checkC15(c *Ctx) {
 	RequireFacts(c, p, "C15.guard", cc, AcceptNilErr, nil, []Req{{"Known(id)", `^has\(pr\.` + q(fMap) + `,` + ccIDTok + `\)$`}})
 	RequireFacts(c, p, "C15.guard", cc, AcceptNilErr,
 		[]string{`^` + cur + `\.` + q(fComp) + `$`, `^0 == ` + cur + `\.` + q(fPos) + `$`, `^` + cur + `\.` + q(fPos) + ` <= 0$`},
-		[]Req{
+		map[bool][]Req{true: {
+			// the previous challenge is designated by its position (−1 before any is computed):
+			// last == position-1 says both that it exists and that it is the predecessor
+			{"PreviousIsPredecessor(last computed == position-1)", `^\(` + cur + `\.` + q(fPos) + `-1\) == pr\.` + q(fPrev) + `$|^pr\.` + q(fPrev) + ` == \(` + cur + `\.` + q(fPos) + `-1\)$|^\((?:1\+pr\.` + q(fPrev) + `|pr\.` + q(fPrev) + `\+1)\) == ` + cur + `\.` + q(fPos) + `$|^` + cur + `\.` + q(fPos) + ` == \((?:1\+pr\.` + q(fPrev) + `|pr\.` + q(fPrev) + `\+1)\)$`},
+		}, false: {
 			{"PreviousComputed(previous != nil)", map[bool]string{false: `^pr\.` + q(fPrev) + ` != nil$`, true: `^pr\.` + q(fPrev) + `\.` + q(fComp) + `$|^pr\.` + q(fHasPrev) + `$`}[prevByValue]},
 			// previous.position == position-1, or the same equation with the 1 on the other side
 			{"PreviousIsPredecessor(previous.position == position-1)", `^\(` + cur + `\.` + q(fPos) + `-1\) == pr\.` + q(fPrev) + `\.` + q(fPos) + `$|^pr\.` + q(fPrev) + `\.` + q(fPos) + ` == \(` + cur + `\.` + q(fPos) + `-1\)$|^\((?:1\+pr\.` + q(fPrev) + `\.` + q(fPos) + `|pr\.` + q(fPrev) + `\.` + q(fPos) + `\+1)\) == ` + cur + `\.` + q(fPos) + `$|^` + cur + `\.` + q(fPos) + ` == \((?:1\+pr\.` + q(fPrev) + `\.` + q(fPos) + `|pr\.` + q(fPrev) + `\.` + q(fPos) + `\+1)\)$`},
-		})
+		}}[prevByIndex])
+
+	if prevByIndex {
+		// "no challenge computed yet" is a position that precedes no challenge: every function that
+		// builds a transcript stores a negative constant there
+		recvNamed := bind.Params[0].Type().(*types.Pointer).Elem()
+		n, ok := 0, true
+		pos := p.Pos(bind.Pos())
+		for _, fn := range p.RepoFuncs() {
+			if fn.Pkg == nil || fn.Pkg != bind.Pkg || fn.Blocks == nil {
+				continue
+			}
+			builds := false
+			neg := false
+			for _, b := range fn.Blocks {
+				for _, in := range b.Instrs {
+					if al, isAl := in.(*ssa.Alloc); isAl && types.Identical(al.Type().(*types.Pointer).Elem(), recvNamed) {
+						builds = true
+					}
+					if st, isSt := in.(*ssa.Store); isSt {
+						if fa, isFA := st.Addr.(*ssa.FieldAddr); isFA && fieldName(fa.X.Type(), fa.Field) == fPrev && types.Identical(derefType(fa.X.Type()), recvNamed) {
+							if k, isC := constInt(st.Val); isC && k < 0 {
+								neg = true
+							}
+						}
+					}
+				}
+			}
+			if builds {
+				n++
+				if !neg {
+					ok = false
+					pos = p.Pos(fn.Pos())
+				}
+			}
+		}
+		c.Ob("C15.guard", pkg, "constructors", "no-previous-is-negative", pos, ok && n > 0, "a function that builds a Transcript does not set the position of the last computed challenge to a negative constant: position 0 would pass for the predecessor of challenge 1 before anything is computed")
+	}
 
 	vb, vc := NewIView(bind), NewIView(cc)
 
@@ -202,7 +275,13 @@ func checkC15(c *Ctx) {
 		}
 		// the state transition must happen on success of the computing path
 		if fn == cc {
-			c.Ob("C15.L11", pkg, funcKey(fn), "state-written-on-success", p.Pos(fn.Pos()), len(writes) >= 2,
+			prevWritten := false
+			for _, w := range writes {
+				if st, isSt := w.in.(*ssa.Store); isSt && v.AddrDerivedFrom(st.Addr, w.fr, recv, "."+fPrev+"...") {
+					prevWritten = true
+				}
+			}
+			c.Ob("C15.L11", pkg, funcKey(fn), "state-written-on-success", p.Pos(fn.Pos()), len(writes) >= 2 && prevWritten,
 				"ComputeChallenge no longer records the computed challenge (map update) and the previous pointer")
 		} else {
 			c.Ob("C15.L11", pkg, funcKey(fn), "state-written-on-success", p.Pos(fn.Pos()), len(writes) >= 1,
@@ -339,7 +418,10 @@ func checkC15(c *Ctx) {
 				switch {
 				case v.DerivedFrom(a, x.fr, id, ""):
 					wID = &x
-				case v.DerivedFrom(a, x.fr, recv, "."+fPrev+"."+fVal):
+				case !prevByIndex && v.DerivedFrom(a, x.fr, recv, "."+fPrev+"."+fVal):
+					wPrev = &x
+				case prevByIndex && v.DerivedFrom(a, x.fr, recv, ch+"."+fVal) && indexedByField(v, a, x.fr, recv, "."+fPrev):
+					// the value of the record at the position kept in the transcript
 					wPrev = &x
 				case v.DerivedFrom(a, x.fr, recv, ch+"."+fBind+"[*]"):
 					wBind = &x
@@ -693,4 +775,35 @@ func thinWrapperTarget(fn *ssa.Function) (*ssa.Function, map[int]int) {
 		}
 	}
 	return g, pm
+}
+
+// indexedByField: on the way from v back to its root there is an element access whose index is
+// loaded from the given path of recv (t.challenges[t.lastComputed].value).
+func indexedByField(v *IView, val ssa.Value, fr *ivFrame, recv *ssa.Parameter, path string) bool {
+	for d := 0; d < 12 && val != nil; d++ {
+		val = stripConv(val)
+		switch x := val.(type) {
+		case *ssa.UnOp:
+			val = x.X
+		case *ssa.FieldAddr:
+			val = x.X
+		case *ssa.Field:
+			val = x.X
+		case *ssa.Slice:
+			val = x.X
+		case *ssa.IndexAddr:
+			if v.DerivedFrom(x.Index, fr, recv, path) {
+				return true
+			}
+			val = x.X
+		case *ssa.Index:
+			if v.DerivedFrom(x.Index, fr, recv, path) {
+				return true
+			}
+			val = x.X
+		default:
+			return false
+		}
+	}
+	return false
 }
